@@ -775,6 +775,66 @@ example : FragCue "p" 4 cxTop = true ∧ cueValidDef false false alwaysCue "p" c
     cueValidDef true false alwaysCue "p" cxTop 2 "R" cxDocCue = false := by
   refine ⟨by decide +kernel, by decide +kernel, by decide +kernel⟩
 
+/-! a second refutation: CUE fills in an absent regular member that is concrete without data, the IR says `required` -/
+
+def cx2Top : Top :=
+  [("#R", "R", .mk { ikind := "struct", kind := "struct", concrete := true, evalOp := "no", evalHasFields := true, orsplit := [true] } [] [] []
+      [("kind", false, false, constS "fixed")])]
+
+def reqAlias (S : Schemas) : Bool :=
+  match Schemas.locateObject S "p" "R" with
+  | some o => (match o.ty with | .struct [f] _ none _ => f.required && f.name == "kind" | _ => false)
+  | none => false
+
+theorem reqAlias_srcDen (S : Schemas) (h : reqAlias S = true) (n' : Nat) :
+    srcDen n' S (.ref "p" "R" {}) (.obj []) = false := by
+  cases n' with
+  | zero => rfl
+  | succ k =>
+    unfold reqAlias at h
+    cases ho : Schemas.locateObject S "p" "R" with
+    | none => simp [ho] at h
+    | some o =>
+      simp only [ho] at h
+      cases hty : o.ty with
+      | struct fs g gi sm =>
+        simp only [hty] at h
+        cases fs with
+        | nil => simp at h
+        | cons f rest =>
+          cases rest with
+          | cons _ _ => simp at h
+          | nil =>
+            cases gi with
+            | some _ => simp at h
+            | none =>
+              simp only [Bool.and_eq_true, beq_iff_eq] at h
+              unfold srcDen
+              rw [xs_ref_struct S k "p" "R" {} (.obj []) o [f] g sm ho hty]
+              simp [xStructBody, xFieldsWith, Json.lookup, h.1, Json.isNull]
+      | scalar _ _ _ _ | ref _ _ _ | cref _ _ _ _ | array _ _ | map _ _ _ | enum _ _ | disj _ _ _ | inter _ _ | slot _ _ | bad _ _ =>
+        simp [hty] at h
+
+/-- `#R: {kind: "fixed"}` and the document `{}`: CUE's Unify + Validate(Concrete) accepts it (the constant is filled in), the
+    front-end marks the member `required`: `{}` is in `srcDen` at no fuel (replayed: pinned case `cuepinconst` of stream
+    c01-front-cue).  The schema is INSIDE `FragCue`; the document is valid but not strictly valid. -/
+theorem C01_cue_parser_sound_counterexample_required_constant : ¬ C01_cue_parser_sound_full := by
+  intro hfull
+  have hshape : (match cueFront "p" 4 cx2Top with
+      | .ok S => reqAlias S | _ => false) = true := by decide +kernel
+  cases hr : cueFront "p" 4 cx2Top with
+  | ok S =>
+    rw [hr] at hshape
+    obtain ⟨n', h⟩ := hfull false alwaysCue "p" cx2Top "R" 4 S 4 (.obj []) hr (by decide +kernel) (by decide +kernel)
+    rw [reqAlias_srcDen S hshape n'] at h
+    cases h
+  | err e => rw [hr] at hshape; cases hshape
+  | panic e => rw [hr] at hshape; cases hshape
+
+example : FragCue "p" 4 cx2Top = true ∧ cueValidDef false false alwaysCue "p" cx2Top 4 "R" (.obj []) = true ∧
+    cueValidDef true false alwaysCue "p" cx2Top 4 "R" (.obj []) = false := by
+  refine ⟨by decide +kernel, by decide +kernel, by decide +kernel⟩
+
 end CUE
 
 -- ---- END block of the c01-front builder ----
